@@ -86,6 +86,7 @@ class Engine:
         self.inlined = set()
         self.spec_depth = 0
         self._spec_cache = {}
+        self._meet_cache = {}
         self.attr_next = {}
         self.converged = False
         self.frozen = frozen if frozen is not None else dict(getattr(ann, "CONTRACTS", {}) or {})
@@ -125,6 +126,8 @@ class Engine:
                     parts.append(SCALAR)
                 elif k == "str":
                     parts.append(AV(("str",)))
+                elif k == "scalars":
+                    parts.append(AV(("tuple", "list"), (), elem=SCALAR))
                 elif k == "strs":
                     parts.append(AV(("str",)))
                     parts.append(AV(("list", "tuple"), o, elem=AV(("str",))))
@@ -156,7 +159,12 @@ class Engine:
         if self.mode == "check":
             f = self.frozen.get(key)
             if f is not None:
-                return f
+                # callers rely on the frozen contract; where the current code of the callee does
+                # *less* than its contract allows (e.g. after a repair), they see the smaller effect
+                # (what the callee does beyond its contract is reported at the callee, not here)
+                if key not in self._meet_cache:
+                    self._meet_cache[key] = _meet(f, self.summaries.get(key))
+                return self._meet_cache[key]
             if key in self.pkg.funcs:
                 self.missing_frozen.add(key)
         return self.summaries.get(key)
@@ -374,6 +382,7 @@ class Engine:
             self.infer()
         self.mode = "check"
         self._spec_cache = {}
+        self._meet_cache = {}
         self.missing_frozen = set()
         obls = []
         notes = []
@@ -545,6 +554,39 @@ def _widen(old, new):
     return out
 
 
+def _meet(frozen, inferred):
+    """effects: pointwise minimum of frozen contract and current inferred summary"""
+    if inferred is None:
+        return frozen
+    cases = []
+    for c in frozen["cases"]:
+        cons = [i for i in inferred["cases"]
+                if all(c["when"].get(k, v) == v for k, v in i["when"].items())]
+        if not cons:
+            return frozen
+        mod, sto, con, ret, rets = {}, {}, set(), set(), None
+        for i in cons:
+            for p, r in i.get("modifies", {}).items():
+                mod.setdefault(p, set()).update(r)
+            for p, r in i.get("mutates_stored", {}).items():
+                sto.setdefault(p, set()).update(r)
+            con |= set(i.get("mod_containers", ()))
+            ret |= {tuple(x) for x in i.get("retains", ())}
+            rets = join_ret(rets, i.get("returns"))
+        m = dict(c)
+        m["modifies"] = {p: sorted(mod[p]) for p in c.get("modifies", {}) if p in mod}
+        m["mutates_stored"] = {p: sorted(sto[p]) for p in c.get("mutates_stored", {}) if p in sto}
+        m["mod_containers"] = [p for p in c.get("mod_containers", ()) if p in con]
+        fr = {tuple(x) for x in c.get("retains", ())}
+        m["retains"] = sorted([list(x) for x in fr & ret])
+        fo = {o for o in ret_origins(c.get("returns")) if o != "N"}
+        io = {o for o in ret_origins(rets) if o != "N"}
+        if io <= fo and rets is not None:
+            m["returns"] = rets
+        cases.append(m)
+    return {"params": frozen["params"], "flags": frozen["flags"], "cases": cases}
+
+
 def _collapse(s):
     if len(s["cases"]) <= 1:
         return {"params": s["params"], "flags": [], "cases": [dict(c, when={}) for c in s["cases"]]}
@@ -557,6 +599,9 @@ def _collapse(s):
 
 # =============================================================================================
 # write sets / read sets over self.<attr>  (reusable API for the invariant proofs)
+_MUTATORS = (T.LIST_MUTATE | T.DICT_MUTATE | T.ARR_MUTATE_METHODS) - {"__setitem__", "__delitem__"}
+
+
 class _AttrScan(ast.NodeVisitor):
     def __init__(self, selfname, modelnames=("model",)):
         self.selfname = selfname
@@ -569,6 +614,8 @@ class _AttrScan(ast.NodeVisitor):
         self.model_reads = set()
         self.model_calls = set()
         self.modelnames = modelnames
+        self._callee_nodes = set()
+        self.sub_calls = set()
 
     def _is_self(self, n):
         return isinstance(n, ast.Name) and n.id == self.selfname
@@ -580,13 +627,19 @@ class _AttrScan(ast.NodeVisitor):
                 and n.attr in ("model", "_model"))
 
     def visit_Attribute(self, node):
-        if self._is_self(node.value):
+        if id(node) in self._callee_nodes:
+            pass
+        elif self._is_self(node.value):
             if isinstance(node.ctx, ast.Load):
                 self.reads.add(node.attr)
             else:
                 self.writes.add(node.attr)
         elif self._is_model(node.value) and isinstance(node.ctx, ast.Load):
             self.model_reads.add(node.attr)
+        elif isinstance(node.ctx, (ast.Store, ast.Del)) and isinstance(node.value, ast.Attribute) \
+                and self._is_self(node.value.value):
+            # self.a.b = v : state of a sub-object (CondSRF delegates to self.krige)
+            self.writes.add(node.value.attr + "." + node.attr)
         self.generic_visit(node)
 
     def visit_Subscript(self, node):
@@ -594,6 +647,9 @@ class _AttrScan(ast.NodeVisitor):
         if isinstance(node.ctx, (ast.Store, ast.Del)) and isinstance(node.value, ast.Attribute) \
                 and self._is_self(node.value.value):
             self.writes.add(node.value.attr)
+        if self._is_self(node.value):
+            self.calls.add("__delitem__" if isinstance(node.ctx, ast.Del) else
+                           "__setitem__" if isinstance(node.ctx, ast.Store) else "__getitem__")
         self.generic_visit(node)
 
     def visit_AugAssign(self, node):
@@ -606,8 +662,16 @@ class _AttrScan(ast.NodeVisitor):
         f = node.func
         if isinstance(f, ast.Attribute) and self._is_self(f.value):
             self.calls.add(f.attr)
+            self._callee_nodes.add(id(f))
         elif isinstance(f, ast.Attribute) and self._is_model(f.value):
             self.model_calls.add(f.attr)
+            self._callee_nodes.add(id(f))
+        elif isinstance(f, ast.Attribute) and isinstance(f.value, ast.Attribute) \
+                and self._is_self(f.value.value) and f.attr in _MUTATORS:
+            self.writes.add(f.value.attr)            # self.x.append(...) writes the content of self.x
+        elif isinstance(f, ast.Attribute) and isinstance(f.value, ast.Attribute) \
+                and self._is_self(f.value.value) and not self._is_model(f.value):
+            self.sub_calls.add("%s.%s()" % (f.value.attr, f.attr))    # not followed, only recorded
         elif isinstance(f, ast.Attribute) and isinstance(f.value, ast.Call) \
                 and isinstance(f.value.func, ast.Name) and f.value.func.id == "super":
             self.calls.add(("super", f.attr))
@@ -669,6 +733,8 @@ def _rw(pkg, fi, cls, seen, want):
     out = set()
     direct = sc.writes if want == "w" else sc.reads
     cname = cls or fi.cls
+    for a in sc.sub_calls:
+        out.add("self." + a)
     for a in direct:
         role = "setter" if want == "w" else "getter"
         handled = False
@@ -776,6 +842,8 @@ def _find(pkg, module_relpath, qualname):
 def assigns(module_relpath, qualname, cls=None, src_root=None):
     """set of `self.<attr>` names written by the method, transitively through self.method()
     calls, property setters/getters executed, and module functions that receive `self`.
+    `self.a.b` = attribute of a sub-object written; `self.a.m()` = a method of a sub-object is
+    called (its effect on the sub-object is NOT followed).
     `cls` = dynamic class name when the method is inherited (default: the defining class).
     `self.*` means a dynamically named attribute (setattr(self, name, ...))."""
     pkg = get_package(src_root)
@@ -792,12 +860,26 @@ def reads(module_relpath, qualname, cls=None, src_root=None):
 
 
 # =============================================================================================
+def _compact(summary):
+    cases = []
+    for c in summary["cases"]:
+        d = {"when": c["when"]}
+        for k in ("modifies", "mutates_stored", "mod_containers", "retains"):
+            if c.get(k):
+                d[k] = c[k]
+        if c.get("returns") is not None:
+            d["returns"] = c["returns"]
+        cases.append(d)
+    return {"params": summary["params"], "flags": summary["flags"], "cases": cases}
+
+
 def freeze(path=CONTRACT_FILE, src_root=None):
     ann = load_contract_file(path)
     pkg = Package(src_root or _src_root())
     eng = Engine(pkg, ann, frozen={})
     eng.infer()
-    body = "CONTRACTS = " + pprint.pformat(eng.summaries, width=118, compact=True) + "\n"
+    body = "CONTRACTS = " + pprint.pformat({k: _compact(v) for k, v in sorted(eng.summaries.items())},
+                                           width=118, compact=True) + "\n"
     src = open(path).read()
     head = src.split(FROZEN_MARK)[0]
     with open(path, "w") as f:
